@@ -953,6 +953,10 @@ module Z =
       (fun _ -> O)
       z0
 
+  (** val to_N : Big_int_Z.big_int -> Big_int_Z.big_int **)
+
+  let to_N = Big_int_Z.(fun p -> if sign_big_int p < 0 then zero_big_int else p)
+
   (** val of_nat : nat -> Big_int_Z.big_int **)
 
   let of_nat = function
@@ -13199,6 +13203,250 @@ let run_options = function
           a)
         s))
 
+(** val utf8_encode1 : Big_int_Z.big_int -> Big_int_Z.big_int list **)
+
+let utf8_encode1 c =
+  if Z.ltb c (Big_int_Z.mult_int_big_int 2 (Big_int_Z.mult_int_big_int 2
+       (Big_int_Z.mult_int_big_int 2 (Big_int_Z.mult_int_big_int 2
+       (Big_int_Z.mult_int_big_int 2 (Big_int_Z.mult_int_big_int 2
+       (Big_int_Z.mult_int_big_int 2 Big_int_Z.unit_big_int)))))))
+  then c :: []
+  else if Z.ltb c (Big_int_Z.mult_int_big_int 2 (Big_int_Z.mult_int_big_int 2
+            (Big_int_Z.mult_int_big_int 2 (Big_int_Z.mult_int_big_int 2
+            (Big_int_Z.mult_int_big_int 2 (Big_int_Z.mult_int_big_int 2
+            (Big_int_Z.mult_int_big_int 2 (Big_int_Z.mult_int_big_int 2
+            (Big_int_Z.mult_int_big_int 2 (Big_int_Z.mult_int_big_int 2
+            (Big_int_Z.mult_int_big_int 2 Big_int_Z.unit_big_int)))))))))))
+       then (Z.add (Big_int_Z.mult_int_big_int 2
+              (Big_int_Z.mult_int_big_int 2 (Big_int_Z.mult_int_big_int 2
+              (Big_int_Z.mult_int_big_int 2 (Big_int_Z.mult_int_big_int 2
+              (Big_int_Z.mult_int_big_int 2
+              ((fun x -> Big_int_Z.succ_big_int (Big_int_Z.mult_int_big_int 2 x))
+              Big_int_Z.unit_big_int)))))))
+              (Z.div c (Big_int_Z.mult_int_big_int 2
+                (Big_int_Z.mult_int_big_int 2 (Big_int_Z.mult_int_big_int 2
+                (Big_int_Z.mult_int_big_int 2 (Big_int_Z.mult_int_big_int 2
+                (Big_int_Z.mult_int_big_int 2 Big_int_Z.unit_big_int)))))))) :: (
+              (Z.add (Big_int_Z.mult_int_big_int 2
+                (Big_int_Z.mult_int_big_int 2 (Big_int_Z.mult_int_big_int 2
+                (Big_int_Z.mult_int_big_int 2 (Big_int_Z.mult_int_big_int 2
+                (Big_int_Z.mult_int_big_int 2 (Big_int_Z.mult_int_big_int 2
+                Big_int_Z.unit_big_int)))))))
+                (Z.modulo c (Big_int_Z.mult_int_big_int 2
+                  (Big_int_Z.mult_int_big_int 2 (Big_int_Z.mult_int_big_int 2
+                  (Big_int_Z.mult_int_big_int 2 (Big_int_Z.mult_int_big_int 2
+                  (Big_int_Z.mult_int_big_int 2 Big_int_Z.unit_big_int)))))))) :: [])
+       else if Z.ltb c (Big_int_Z.mult_int_big_int 2
+                 (Big_int_Z.mult_int_big_int 2 (Big_int_Z.mult_int_big_int 2
+                 (Big_int_Z.mult_int_big_int 2 (Big_int_Z.mult_int_big_int 2
+                 (Big_int_Z.mult_int_big_int 2 (Big_int_Z.mult_int_big_int 2
+                 (Big_int_Z.mult_int_big_int 2 (Big_int_Z.mult_int_big_int 2
+                 (Big_int_Z.mult_int_big_int 2 (Big_int_Z.mult_int_big_int 2
+                 (Big_int_Z.mult_int_big_int 2 (Big_int_Z.mult_int_big_int 2
+                 (Big_int_Z.mult_int_big_int 2 (Big_int_Z.mult_int_big_int 2
+                 (Big_int_Z.mult_int_big_int 2
+                 Big_int_Z.unit_big_int))))))))))))))))
+            then (Z.add (Big_int_Z.mult_int_big_int 2
+                   (Big_int_Z.mult_int_big_int 2
+                   (Big_int_Z.mult_int_big_int 2
+                   (Big_int_Z.mult_int_big_int 2
+                   (Big_int_Z.mult_int_big_int 2
+                   ((fun x -> Big_int_Z.succ_big_int (Big_int_Z.mult_int_big_int 2 x))
+                   ((fun x -> Big_int_Z.succ_big_int (Big_int_Z.mult_int_big_int 2 x))
+                   Big_int_Z.unit_big_int)))))))
+                   (Z.div c (Big_int_Z.mult_int_big_int 2
+                     (Big_int_Z.mult_int_big_int 2
+                     (Big_int_Z.mult_int_big_int 2
+                     (Big_int_Z.mult_int_big_int 2
+                     (Big_int_Z.mult_int_big_int 2
+                     (Big_int_Z.mult_int_big_int 2
+                     (Big_int_Z.mult_int_big_int 2
+                     (Big_int_Z.mult_int_big_int 2
+                     (Big_int_Z.mult_int_big_int 2
+                     (Big_int_Z.mult_int_big_int 2
+                     (Big_int_Z.mult_int_big_int 2
+                     (Big_int_Z.mult_int_big_int 2
+                     Big_int_Z.unit_big_int)))))))))))))) :: ((Z.add
+                                                                (Big_int_Z.mult_int_big_int 2
+                                                                (Big_int_Z.mult_int_big_int 2
+                                                                (Big_int_Z.mult_int_big_int 2
+                                                                (Big_int_Z.mult_int_big_int 2
+                                                                (Big_int_Z.mult_int_big_int 2
+                                                                (Big_int_Z.mult_int_big_int 2
+                                                                (Big_int_Z.mult_int_big_int 2
+                                                                Big_int_Z.unit_big_int)))))))
+                                                                (Z.modulo
+                                                                  (Z.div c
+                                                                    (Big_int_Z.mult_int_big_int 2
+                                                                    (Big_int_Z.mult_int_big_int 2
+                                                                    (Big_int_Z.mult_int_big_int 2
+                                                                    (Big_int_Z.mult_int_big_int 2
+                                                                    (Big_int_Z.mult_int_big_int 2
+                                                                    (Big_int_Z.mult_int_big_int 2
+                                                                    Big_int_Z.unit_big_int)))))))
+                                                                  (Big_int_Z.mult_int_big_int 2
+                                                                  (Big_int_Z.mult_int_big_int 2
+                                                                  (Big_int_Z.mult_int_big_int 2
+                                                                  (Big_int_Z.mult_int_big_int 2
+                                                                  (Big_int_Z.mult_int_big_int 2
+                                                                  (Big_int_Z.mult_int_big_int 2
+                                                                  Big_int_Z.unit_big_int)))))))) :: (
+                   (Z.add (Big_int_Z.mult_int_big_int 2
+                     (Big_int_Z.mult_int_big_int 2
+                     (Big_int_Z.mult_int_big_int 2
+                     (Big_int_Z.mult_int_big_int 2
+                     (Big_int_Z.mult_int_big_int 2
+                     (Big_int_Z.mult_int_big_int 2
+                     (Big_int_Z.mult_int_big_int 2
+                     Big_int_Z.unit_big_int)))))))
+                     (Z.modulo c (Big_int_Z.mult_int_big_int 2
+                       (Big_int_Z.mult_int_big_int 2
+                       (Big_int_Z.mult_int_big_int 2
+                       (Big_int_Z.mult_int_big_int 2
+                       (Big_int_Z.mult_int_big_int 2
+                       (Big_int_Z.mult_int_big_int 2
+                       Big_int_Z.unit_big_int)))))))) :: []))
+            else (Z.add (Big_int_Z.mult_int_big_int 2
+                   (Big_int_Z.mult_int_big_int 2
+                   (Big_int_Z.mult_int_big_int 2
+                   (Big_int_Z.mult_int_big_int 2
+                   ((fun x -> Big_int_Z.succ_big_int (Big_int_Z.mult_int_big_int 2 x))
+                   ((fun x -> Big_int_Z.succ_big_int (Big_int_Z.mult_int_big_int 2 x))
+                   ((fun x -> Big_int_Z.succ_big_int (Big_int_Z.mult_int_big_int 2 x))
+                   Big_int_Z.unit_big_int)))))))
+                   (Z.div c (Big_int_Z.mult_int_big_int 2
+                     (Big_int_Z.mult_int_big_int 2
+                     (Big_int_Z.mult_int_big_int 2
+                     (Big_int_Z.mult_int_big_int 2
+                     (Big_int_Z.mult_int_big_int 2
+                     (Big_int_Z.mult_int_big_int 2
+                     (Big_int_Z.mult_int_big_int 2
+                     (Big_int_Z.mult_int_big_int 2
+                     (Big_int_Z.mult_int_big_int 2
+                     (Big_int_Z.mult_int_big_int 2
+                     (Big_int_Z.mult_int_big_int 2
+                     (Big_int_Z.mult_int_big_int 2
+                     (Big_int_Z.mult_int_big_int 2
+                     (Big_int_Z.mult_int_big_int 2
+                     (Big_int_Z.mult_int_big_int 2
+                     (Big_int_Z.mult_int_big_int 2
+                     (Big_int_Z.mult_int_big_int 2
+                     (Big_int_Z.mult_int_big_int 2
+                     Big_int_Z.unit_big_int)))))))))))))))))))) :: ((Z.add
+                                                                    (Big_int_Z.mult_int_big_int 2
+                                                                    (Big_int_Z.mult_int_big_int 2
+                                                                    (Big_int_Z.mult_int_big_int 2
+                                                                    (Big_int_Z.mult_int_big_int 2
+                                                                    (Big_int_Z.mult_int_big_int 2
+                                                                    (Big_int_Z.mult_int_big_int 2
+                                                                    (Big_int_Z.mult_int_big_int 2
+                                                                    Big_int_Z.unit_big_int)))))))
+                                                                    (Z.modulo
+                                                                    (Z.div c
+                                                                    (Big_int_Z.mult_int_big_int 2
+                                                                    (Big_int_Z.mult_int_big_int 2
+                                                                    (Big_int_Z.mult_int_big_int 2
+                                                                    (Big_int_Z.mult_int_big_int 2
+                                                                    (Big_int_Z.mult_int_big_int 2
+                                                                    (Big_int_Z.mult_int_big_int 2
+                                                                    (Big_int_Z.mult_int_big_int 2
+                                                                    (Big_int_Z.mult_int_big_int 2
+                                                                    (Big_int_Z.mult_int_big_int 2
+                                                                    (Big_int_Z.mult_int_big_int 2
+                                                                    (Big_int_Z.mult_int_big_int 2
+                                                                    (Big_int_Z.mult_int_big_int 2
+                                                                    Big_int_Z.unit_big_int)))))))))))))
+                                                                    (Big_int_Z.mult_int_big_int 2
+                                                                    (Big_int_Z.mult_int_big_int 2
+                                                                    (Big_int_Z.mult_int_big_int 2
+                                                                    (Big_int_Z.mult_int_big_int 2
+                                                                    (Big_int_Z.mult_int_big_int 2
+                                                                    (Big_int_Z.mult_int_big_int 2
+                                                                    Big_int_Z.unit_big_int)))))))) :: (
+                   (Z.add (Big_int_Z.mult_int_big_int 2
+                     (Big_int_Z.mult_int_big_int 2
+                     (Big_int_Z.mult_int_big_int 2
+                     (Big_int_Z.mult_int_big_int 2
+                     (Big_int_Z.mult_int_big_int 2
+                     (Big_int_Z.mult_int_big_int 2
+                     (Big_int_Z.mult_int_big_int 2
+                     Big_int_Z.unit_big_int)))))))
+                     (Z.modulo
+                       (Z.div c (Big_int_Z.mult_int_big_int 2
+                         (Big_int_Z.mult_int_big_int 2
+                         (Big_int_Z.mult_int_big_int 2
+                         (Big_int_Z.mult_int_big_int 2
+                         (Big_int_Z.mult_int_big_int 2
+                         (Big_int_Z.mult_int_big_int 2
+                         Big_int_Z.unit_big_int)))))))
+                       (Big_int_Z.mult_int_big_int 2
+                       (Big_int_Z.mult_int_big_int 2
+                       (Big_int_Z.mult_int_big_int 2
+                       (Big_int_Z.mult_int_big_int 2
+                       (Big_int_Z.mult_int_big_int 2
+                       (Big_int_Z.mult_int_big_int 2
+                       Big_int_Z.unit_big_int)))))))) :: ((Z.add
+                                                            (Big_int_Z.mult_int_big_int 2
+                                                            (Big_int_Z.mult_int_big_int 2
+                                                            (Big_int_Z.mult_int_big_int 2
+                                                            (Big_int_Z.mult_int_big_int 2
+                                                            (Big_int_Z.mult_int_big_int 2
+                                                            (Big_int_Z.mult_int_big_int 2
+                                                            (Big_int_Z.mult_int_big_int 2
+                                                            Big_int_Z.unit_big_int)))))))
+                                                            (Z.modulo c
+                                                              (Big_int_Z.mult_int_big_int 2
+                                                              (Big_int_Z.mult_int_big_int 2
+                                                              (Big_int_Z.mult_int_big_int 2
+                                                              (Big_int_Z.mult_int_big_int 2
+                                                              (Big_int_Z.mult_int_big_int 2
+                                                              (Big_int_Z.mult_int_big_int 2
+                                                              Big_int_Z.unit_big_int)))))))) :: [])))
+
+(** val bytes_to_string : Big_int_Z.big_int list -> string **)
+
+let rec bytes_to_string = function
+| [] -> ""
+| b :: t0 ->
+  (* If this appears, you're using String internals. Please don't *)
+  (fun (c, s) -> String.make 1 c ^ s)
+
+    ((ascii_of_N (Z.to_N b)), (bytes_to_string t0))
+
+(** val utf8_string : ustr -> string **)
+
+let utf8_string u =
+  bytes_to_string (flat_map utf8_encode1 u)
+
+(** val assocZ :
+    (Big_int_Z.big_int * 'a1) list -> Big_int_Z.big_int -> 'a1 -> 'a1 **)
+
+let assocZ l c d =
+  match find (fun x -> Z.eqb (fst x) c) l with
+  | Some x -> snd x
+  | None -> d
+
+(** val memZ : Big_int_Z.big_int -> Big_int_Z.big_int list -> bool **)
+
+let memZ c l =
+  existsb (Z.eqb c) l
+
+(** val to_pcand : profile0 -> Big_int_Z.big_int -> pcand **)
+
+let to_pcand p c =
+  { pc_cid = c; pc_order = (assocZ p.p_candOrder c c); pc_tie =
+    (assocZ p.p_tieOrder c c); pc_name =
+    (utf8_string (assocZ p.p_candName c [])); pc_nick =
+    (utf8_string (assocZ p.p_nickName c [])); pc_withdrawn =
+    (memZ c p.p_withdrawn); pc_undeclared = (memZ c p.p_undeclared) }
+
+(** val to_count_profile : profile0 -> profile **)
+
+let to_count_profile p =
+  { pr_nseats = p.p_nSeats; pr_nballots = p.p_nBallots; pr_cands =
+    (map (to_pcand p) (cids_upto p.p_nCand)); pr_ballots = p.p_lines;
+    pr_eballots = p.p_linesEq }
+
 (** val show_resZ : Big_int_Z.big_int res -> string **)
 
 let show_resZ = function
@@ -14037,28 +14285,201 @@ let show_outcome a m = function
     ((^) "X " (exn_name e))
 | OutOfFuel -> "X OutOfFuel"
 
+(** val run_case : count_case -> string **)
+
+let run_case c =
+  let r = c.cc_rule in
+  let cfg = c.cc_cfg in
+  let fuel = c.cc_fuel in
+  let pr = c.cc_profile in
+  let p = c.cc_p in
+  let g = c.cc_g in
+  let d = c.cc_d in
+  let stale = c.cc_stale in
+  if Z.eqb c.cc_ar Big_int_Z.zero_big_int
+  then show_outcome (fixed p d) (meth_of r)
+         (run_count (fixed p d) cfg fuel r pr)
+  else if Z.eqb c.cc_ar Big_int_Z.unit_big_int
+       then show_outcome (guarded p g d stale) (meth_of r)
+              (run_count (guarded p g d stale) cfg fuel r pr)
+       else show_outcome (rational d) (meth_of r)
+              (run_count (rational d) cfg fuel r pr)
+
 (** val run_count_case : tok list -> string **)
 
 let run_count_case l =
   match parse_count_case l with
   | Inl e -> e
-  | Inr c ->
-    let r = c.cc_rule in
-    let cfg = c.cc_cfg in
-    let fuel = c.cc_fuel in
-    let pr = c.cc_profile in
-    let p = c.cc_p in
-    let g = c.cc_g in
-    let d = c.cc_d in
-    let stale = c.cc_stale in
-    if Z.eqb c.cc_ar Big_int_Z.zero_big_int
-    then show_outcome (fixed p d) (meth_of r)
-           (run_count (fixed p d) cfg fuel r pr)
-    else if Z.eqb c.cc_ar Big_int_Z.unit_big_int
-         then show_outcome (guarded p g d stale) (meth_of r)
-                (run_count (guarded p g d stale) cfg fuel r pr)
-         else show_outcome (rational d) (meth_of r)
-                (run_count (rational d) cfg fuel r pr)
+  | Inr c -> run_case c
+
+(** val run_e2e : tok list -> string **)
+
+let run_e2e = function
+| [] -> "bade2e"
+| t0 :: l0 ->
+  (match t0 with
+   | TI _ -> "bade2e"
+   | TS rname ->
+     (match l0 with
+      | [] -> "bade2e"
+      | t1 :: l1 ->
+        (match t1 with
+         | TI rl ->
+           (match l1 with
+            | [] -> "bade2e"
+            | t2 :: l2 ->
+              (match t2 with
+               | TI ar ->
+                 (match l2 with
+                  | [] -> "bade2e"
+                  | t3 :: l3 ->
+                    (match t3 with
+                     | TI p ->
+                       (match l3 with
+                        | [] -> "bade2e"
+                        | t4 :: l4 ->
+                          (match t4 with
+                           | TI g ->
+                             (match l4 with
+                              | [] -> "bade2e"
+                              | t5 :: l5 ->
+                                (match t5 with
+                                 | TI d ->
+                                   (match l5 with
+                                    | [] -> "bade2e"
+                                    | t6 :: l6 ->
+                                      (match t6 with
+                                       | TI stale ->
+                                         (match l6 with
+                                          | [] -> "bade2e"
+                                          | t7 :: l7 ->
+                                            (match t7 with
+                                             | TI om ->
+                                               (match l7 with
+                                                | [] -> "bade2e"
+                                                | t8 :: l8 ->
+                                                  (match t8 with
+                                                   | TI iq ->
+                                                     (match l8 with
+                                                      | [] -> "bade2e"
+                                                      | t9 :: l9 ->
+                                                        (match t9 with
+                                                         | TI bz ->
+                                                           (match l9 with
+                                                            | [] -> "bade2e"
+                                                            | t10 :: l10 ->
+                                                              (match t10 with
+                                                               | TI bt ->
+                                                                 (match l10 with
+                                                                  | [] ->
+                                                                    "bade2e"
+                                                                  | t11 :: l11 ->
+                                                                    (match t11 with
+                                                                    | TI wa ->
+                                                                    (match l11 with
+                                                                    | [] ->
+                                                                    "bade2e"
+                                                                    | t12 :: l12 ->
+                                                                    (match t12 with
+                                                                    | TI fb ->
+                                                                    (match l12 with
+                                                                    | [] ->
+                                                                    "bade2e"
+                                                                    | t13 :: rest ->
+                                                                    (match t13 with
+                                                                    | TI mode ->
+                                                                    (match 
+                                                                    if 
+                                                                    Z.eqb
+                                                                    mode
+                                                                    Big_int_Z.zero_big_int
+                                                                    then 
+                                                                    parse
+                                                                    (toks_zs
+                                                                    rest)
+                                                                    else 
+                                                                    parse_file
+                                                                    (toks_zs
+                                                                    rest) with
+                                                                    | Ok pp ->
+                                                                    let pr =
+                                                                    to_count_profile
+                                                                    pp
+                                                                    in
+                                                                    let r =
+                                                                    rule_of rl
+                                                                    in
+                                                                    let cfg =
+                                                                    { cf_rule =
+                                                                    rname;
+                                                                    cf_method =
+                                                                    (meth_of
+                                                                    r);
+                                                                    cf_nseats =
+                                                                    pr.pr_nseats;
+                                                                    cf_nballots =
+                                                                    pr.pr_nballots;
+                                                                    cf_integer_quota =
+                                                                    (negb
+                                                                    (Z.eqb iq
+                                                                    Big_int_Z.zero_big_int));
+                                                                    cf_batch_zero =
+                                                                    (negb
+                                                                    (Z.eqb bz
+                                                                    Big_int_Z.zero_big_int));
+                                                                    cf_batch =
+                                                                    (negb
+                                                                    (Z.eqb bt
+                                                                    Big_int_Z.zero_big_int));
+                                                                    cf_warren =
+                                                                    (negb
+                                                                    (Z.eqb wa
+                                                                    Big_int_Z.zero_big_int));
+                                                                    cf_omega10 =
+                                                                    om }
+                                                                    in
+                                                                    run_case
+                                                                    { cc_rule =
+                                                                    r;
+                                                                    cc_cfg =
+                                                                    cfg;
+                                                                    cc_fuel =
+                                                                    (Coq_Pos.pow
+                                                                    (Big_int_Z.mult_int_big_int 2
+                                                                    Big_int_Z.unit_big_int)
+                                                                    (Z.to_pos
+                                                                    fb));
+                                                                    cc_profile =
+                                                                    pr;
+                                                                    cc_ar =
+                                                                    ar;
+                                                                    cc_p = p;
+                                                                    cc_g = g;
+                                                                    cc_d = d;
+                                                                    cc_stale =
+                                                                    stale }
+                                                                    | Raise e ->
+                                                                    (^)
+                                                                    "Raise "
+                                                                    (exn_name
+                                                                    e))
+                                                                    | TS _ ->
+                                                                    "bade2e"))
+                                                                    | TS _ ->
+                                                                    "bade2e"))
+                                                                    | TS _ ->
+                                                                    "bade2e"))
+                                                               | TS _ ->
+                                                                 "bade2e"))
+                                                         | TS _ -> "bade2e"))
+                                                   | TS _ -> "bade2e"))
+                                             | TS _ -> "bade2e"))
+                                       | TS _ -> "bade2e"))
+                                 | TS _ -> "bade2e"))
+                           | TS _ -> "bade2e"))
+                     | TS _ -> "bade2e"))
+               | TS _ -> "bade2e"))
+         | TS _ -> "bade2e")))
 
 (** val run : tok list -> string **)
 
@@ -14598,7 +15019,121 @@ let run = function
                                                      s0)
                                         else "badcommand"
                                    else "badcommand"
-               else "badcommand"
+               else if b1
+                    then if b2
+                         then "badcommand"
+                         else if b3
+                              then "badcommand"
+                              else if b4
+                                   then if b5
+                                        then if b6
+                                             then "badcommand"
+                                             else ((* If this appears, you're using String internals. Please don't *)
+ (fun f0 f1 s ->
+    let l = String.length s in
+    if l = 0 then f0 () else f1 (String.get s 0) (String.sub s 1 (l-1)))
+
+                                                     (fun _ ->
+                                                     "badcommand")
+                                                     (fun a0 s1 ->
+                                                     (* If this appears, you're using Ascii internals. Please don't *)
+ (fun f c ->
+  let n = Char.code c in
+  let h i = (n land (1 lsl i)) <> 0 in
+  f (h 0) (h 1) (h 2) (h 3) (h 4) (h 5) (h 6) (h 7))
+                                                       (fun b7 b8 b9 b10 b11 b12 b13 b14 ->
+                                                       if b7
+                                                       then "badcommand"
+                                                       else if b8
+                                                            then if b9
+                                                                 then 
+                                                                   "badcommand"
+                                                                 else 
+                                                                   if b10
+                                                                   then 
+                                                                    "badcommand"
+                                                                   else 
+                                                                    if b11
+                                                                    then 
+                                                                    if b12
+                                                                    then 
+                                                                    if b13
+                                                                    then 
+                                                                    "badcommand"
+                                                                    else 
+                                                                    if b14
+                                                                    then 
+                                                                    "badcommand"
+                                                                    else 
+                                                                    ((* If this appears, you're using String internals. Please don't *)
+ (fun f0 f1 s ->
+    let l = String.length s in
+    if l = 0 then f0 () else f1 (String.get s 0) (String.sub s 1 (l-1)))
+
+                                                                    (fun _ ->
+                                                                    "badcommand")
+                                                                    (fun a1 s2 ->
+                                                                    (* If this appears, you're using Ascii internals. Please don't *)
+ (fun f c ->
+  let n = Char.code c in
+  let h i = (n land (1 lsl i)) <> 0 in
+  f (h 0) (h 1) (h 2) (h 3) (h 4) (h 5) (h 6) (h 7))
+                                                                    (fun b15 b16 b17 b18 b19 b20 b21 b22 ->
+                                                                    if b15
+                                                                    then 
+                                                                    if b16
+                                                                    then 
+                                                                    "badcommand"
+                                                                    else 
+                                                                    if b17
+                                                                    then 
+                                                                    if b18
+                                                                    then 
+                                                                    "badcommand"
+                                                                    else 
+                                                                    if b19
+                                                                    then 
+                                                                    "badcommand"
+                                                                    else 
+                                                                    if b20
+                                                                    then 
+                                                                    if b21
+                                                                    then 
+                                                                    if b22
+                                                                    then 
+                                                                    "badcommand"
+                                                                    else 
+                                                                    ((* If this appears, you're using String internals. Please don't *)
+ (fun f0 f1 s ->
+    let l = String.length s in
+    if l = 0 then f0 () else f1 (String.get s 0) (String.sub s 1 (l-1)))
+
+                                                                    (fun _ ->
+                                                                    run_e2e
+                                                                    rest)
+                                                                    (fun _ _ ->
+                                                                    "badcommand")
+                                                                    s2)
+                                                                    else 
+                                                                    "badcommand"
+                                                                    else 
+                                                                    "badcommand"
+                                                                    else 
+                                                                    "badcommand"
+                                                                    else 
+                                                                    "badcommand")
+                                                                    a1)
+                                                                    s1)
+                                                                    else 
+                                                                    "badcommand"
+                                                                    else 
+                                                                    "badcommand"
+                                                            else "badcommand")
+                                                       a0)
+                                                     s0)
+                                        else "badcommand"
+                                   else "badcommand"
+                    else "badcommand"
           else if b0
                then if b1
                     then if b2
